@@ -19,9 +19,7 @@ Print Assumptions C02_solar_answer_wf.
 Theorem C02_solar_after_any_history : forall bs q, In q solar_queries ->
   let s := fst (solar_run solar_start (bs ++ [LF])) in
   snd (solar_run s (q ++ [LF])) = line_outs q (OReply (mode (ldev s) ++ CRLF)).
-Proof.
-  exact (fun bs q Hq => f_equal snd (solar_answered _ q (lresync solar_exec solar_start bs) Hq)).
-Qed.
+Proof. exact solar_answered_after_history. Qed.
 Print Assumptions C02_solar_after_any_history.
 
 Example C02_solar_ex : In (GET_MODE ++ [CR]) solar_queries /\ solar_idle solar_start = true.
